@@ -223,6 +223,42 @@ impl<'tcx> Cx<'tcx> {
                     _ => {}
                 }
             }
+            Res::SelfTyAlias { alias_to, .. } => {
+                // `Self { .. }` / `Self(..)` inside an impl: name the type the alias stands for
+                o.push(("k", s("path")));
+                let ty = tcx.type_of(alias_to).instantiate_identity().skip_norm_wip();
+                if let ty::Adt(def, _) = ty.kind() {
+                    o.push(("dk", s(format!("{:?}", tcx.def_kind(def.did())))));
+                    o.push(("path", s(path_of(tcx, def.did()))));
+                    o.push(("local", J::B(def.did().is_local())));
+                    o.push(("self_alias", J::B(true)));
+                } else {
+                    o.push(("dk", s("SelfTyAlias".to_string())));
+                    o.push(("path", s(format!("{:?}", res))));
+                }
+            }
+            Res::SelfCtor(imp) => {
+                // `Self(..)` of a tuple struct: name the constructor the alias stands for
+                o.push(("k", s("path")));
+                let ty = tcx.type_of(imp).instantiate_identity().skip_norm_wip();
+                let mut done = false;
+                if let ty::Adt(def, _) = ty.kind() {
+                    if def.is_struct() {
+                        if let Some((ck, cdid)) = def.non_enum_variant().ctor {
+                            o.push(("dk", s(format!("{:?}", DefKind::Ctor(hir::def::CtorOf::Struct, ck)))));
+                            o.push(("path", s(path_of(tcx, cdid))));
+                            o.push(("local", J::B(cdid.is_local())));
+                            o.push(("ctor_of", s(path_of(tcx, def.did()))));
+                            o.push(("self_alias", J::B(true)));
+                            done = true;
+                        }
+                    }
+                }
+                if !done {
+                    o.push(("dk", s("SelfCtor".to_string())));
+                    o.push(("path", s(format!("{:?}", res))));
+                }
+            }
             other => {
                 o.push(("k", s("path")));
                 o.push(("dk", s(format!("{:?}", other))));
